@@ -23,14 +23,15 @@ def plan(tier, seed):
     quick = tier == "quick"
     shards = []
     items = skel.plan(500 if quick else 6000)
-    nsh = 8
+    nsh = 5 if quick else 8
     for i in range(nsh):
         shards.append({"name": f"skel{i}", "gen": "skel", "items": items[i::nsh]})
     shards.append({"name": "xor", "gen": "xor"})
-    for i in range(4):
-        shards.append({"name": f"repeatunit{i}", "gen": "repeatunit", "shard": i, "nshards": 4})
+    nru = 3 if quick else 4
+    for i in range(nru):
+        shards.append({"name": f"repeatunit{i}", "gen": "repeatunit", "shard": i, "nshards": nru})
     secs = 25 if quick else 300
-    for g in ("cmd", "pe", "xorbytes", "matryoshka", "nesting", "seedmut", "soup", "reuse"):
+    for g in ("cmd", "pe", "xorbytes", "matryoshka", "nesting", "seedmut", "reuse") + (() if quick else ("soup",)):
         shards.append({"name": g, "gen": g, "seconds": secs})
     if not quick:
         shards.append({"name": "seedmut2", "gen": "seedmut", "seconds": secs})
